@@ -1,7 +1,8 @@
 from _common import COMMON_NOTE
 
 META = {'title': 'Input ports reflect exactly the controls held, for every event history',
- 'lean_modules': ['ZxVerif.Props.C17'],
+ 'lean_modules': ['ZxVerif.Props.C17', 'ZxVerif.Props.C17X'],
+ 'extract': ['Keys', 'Sinclair'],
  'modelled_code': ['rustzx-core/src/zx/keys.rs',
                    'rustzx-core/src/zx/joy/sinclair.rs',
                    'rustzx-core/src/zx/joy/kempston.rs',
